@@ -97,20 +97,21 @@ static void *far_place(const void *orig, size_t size, int k)
 
 /* ------------------------------------------------------- clear callbacks */
 
-struct cblog { int cb; void *ptr; void *priv; int payload_ok; };
+struct cblog { int cb; void *ptr; void *priv; int payload_ok; int alloc; };       /* alloc: the live allocation the pointer was at the time (-1 none): addresses may come back */
 static struct cblog cbl[16];
 static int ncbl;
 
 static void cb_common(int idx, void *ptr, void *priv)
 {
     CB_ENTER();
-    int i, ok = 0;
+    int i, ok = 0, which = -1;
     /* the callback runs while the payload is still intact and allocated */
     for (i = 0; i < nalloc; i++) if (ma[i].addr == ptr && ma[i].live_payload) {
         ok = simheap_is_live(ptr) && ((unsigned char *)ptr)[0] == ma[i].tag && ((unsigned char *)ptr)[ma[i].size - 1] == (unsigned char)~ma[i].tag;
+        which = i;
         break;
     }
-    if (ncbl < 16) { cbl[ncbl].cb = idx; cbl[ncbl].ptr = ptr; cbl[ncbl].priv = priv; cbl[ncbl].payload_ok = ok; }
+    if (ncbl < 16) { cbl[ncbl].cb = idx; cbl[ncbl].ptr = ptr; cbl[ncbl].priv = priv; cbl[ncbl].payload_ok = ok; cbl[ncbl].alloc = which; }
     ncbl++;
     CB_LEAVE();
 }
@@ -773,7 +774,7 @@ static void q_once(const plan_t *p)
             /* before the abort nothing of the allocation the stray refers to may have been cleared or released */
             if (tgt >= 0) {
                 int j;
-                for (j = 0; j < ncbl && j < 16; j++) if (cbl[j].ptr == ma[tgt].addr) VIOL("cleared_through_stray", "%s: the clear callback ran on the stray copy's memory before the abort", fname);
+                for (j = 0; j < ncbl && j < 16; j++) if (cbl[j].alloc == tgt) VIOL("cleared_through_stray", "%s: the clear callback ran on the stray copy's memory before the abort", fname);
                 for (j = 0; j < g_nhev; j++) if (g_hev[j].kind == 'F' && (g_hev[j].id == ma[tgt].blk_payload || g_hev[j].id == ma[tgt].blk_book))
                     VIOL("released_through_stray", "%s: memory the stray copy refers to was released before the abort", fname);
             }
